@@ -19,8 +19,8 @@ import tempfile
 ID = "C20"
 LEVEL = "fault_enumeration"
 TECHNIQUE = "crash-point and torn-write enumeration with an uninterrupted-run differential at the HTTP boundary"
-RULE = ("histories of 3-8 stepping requests (run-step with constants / points / {} / no body, run-steps(2), session-results) per instance, 1-3 "
-        "instances, scenarios with and without run-spec overrides, begin-session with and without settings, start in {0,1,2.5,8,9,98} (session clocks crossing 10 and 100), dt in {1, .5, .25}, plus sessions of 420 / 700 steps; ALL crash points k=1..N; torn writes at truncation classes {0, 1, inside the outer JSON, "
+RULE = ("histories of 3-8 stepping requests (run-step with one or several constants / points / {} / no body, run-steps(2), session-results) per instance, 1-3 "
+        "instances, scenarios with and without run-spec overrides, begin-session with and without settings, start in {0,1,2.5,8,9,98} (session clocks crossing 10 and 100), dt in {1, .5, .25}, plus sessions of 420 / 700 steps (without settings, with a setting early in the session, with begin settings); ALL crash points k=1..N; torn writes at truncation classes {0, 1, inside the outer JSON, "
         "inside the escaped inner JSON, len-1} via an open() failpoint during the write of request k and via post-hoc truncation; compress off "
         "(the compressed format's lossiness is C19's known finding) plus a lossless-shaped compressed subset; a subset repeated with a really "
         "killed child process. distinct_nontrivial = distinct (history, crash point) pairs in which a setting applied before the crash "
@@ -44,8 +44,8 @@ def gen_cases(tier, seed):
         cases.append(dict(kind="torn", seed=rng.randrange(10 ** 9), ninst=rng.choice([2, 3]), via=["failpoint", "posthoc"][i % 2]))
     for i in range(3 if tier == "quick" else 12):
         cases.append(dict(kind="killed-child", seed=rng.randrange(10 ** 9)))
-    for i in range(2 if tier == "quick" else 8):
-        cases.append(dict(kind="long", seed=rng.randrange(10 ** 9), steps=[420, 700][i % 2]))
+    for i in range(3 if tier == "quick" else 9):
+        cases.append(dict(kind="long", seed=rng.randrange(10 ** 9), steps=[420, 700][i % 2], variant=i % 3))
     return cases
 
 
@@ -64,8 +64,14 @@ def make_history(rng, compress):
         r = rng.random()
         if compress:
             reqs.append(("step", {"settings": {MG: {SC: {"constants": {"rate": rng.choice([0.2, 0.6, 0.9])}}}}}))
-        elif r < 0.3:
+        elif r < 0.2:
             reqs.append(("step", {"settings": {MG: {SC: {"constants": {"rate": rng.choice([0.2, 0.6, 0.9, 1.3])}}}}}))
+        elif r < 0.3:
+            # several constants (and points) changed by one step
+            st = {"constants": {"rate": rng.choice([0.2, 0.6, 0.9]), "cap": rng.choice([12.0, 50.0])}}
+            if rng.random() < 0.4:
+                st["points"] = {"curve": [[0.0, 1.5], [6.0, 0.5], [30.0, 2.0]]}
+            reqs.append(("step", {"settings": {MG: {SC: st}}}))
         elif r < 0.45:
             reqs.append(("step", {"settings": {MG: {SC: {"points": {"curve": rng.choice([[[0.0, 2.0], [9.0, 2.0]], [[0.0, 0.2], [3.0, 3.0], [8.0, 0.5]]])}}}}}))
         elif r < 0.6:
@@ -417,8 +423,14 @@ def run_long(case, counters):
     from vlib import srv
     import shutil
     rng = random.Random(case["seed"])
-    hist = dict(start="0", dt="1", horizon=case["steps"] + 20, scen="base", begin=None,
-                reqs=[("steps", {"numberSteps": case["steps"], "settings": {}}), ("step", {"settings": {}}), ("step", None)])
+    from vlib.srv import MG
+    # variants: no settings at all / a setting early in the session (long gap between the last setting and the crash) / begin settings
+    variant = case.get("variant", 0)
+    early = [("step", {"settings": {MG: {"base": {"constants": {"rate": 0.3, "cap": 45.0}}}}}), ("step", {"settings": {}})] if variant == 1 else []
+    begin = {MG: {"base": {"constants": {"rate": 0.4}}}} if variant == 2 else None
+    hist = dict(start="0", dt="1", horizon=case["steps"] + 20, scen="base", begin=begin,
+                reqs=early + [("steps", {"numberSteps": case["steps"], "settings": {}}), ("step", {"settings": {}}), ("step", None)])
+    pre = len(early) + 1
     tmpU = tempfile.mkdtemp(prefix="c20lu_", dir=".")
     U = open_server(tmpU, hist, False)
     try:
@@ -432,11 +444,13 @@ def run_long(case, counters):
     B = None
     try:
         ids = start_instances(A, [hist])
-        send(A.test_client(), ids[0], hist["reqs"][0])
+        for r_ in hist["reqs"][:pre]:
+            send(A.test_client(), ids[0], r_)
         srv.destroy_server(A)
         B = open_server(tmp, hist, False)
         counters["crash_points"] = counters.get("crash_points", 0) + 1
-        for n in (1, 2):
+        counters["long_sessions"] = counters.get("long_sessions", 0) + 1
+        for n in (pre, pre + 1):
             got = send(B.test_client(), ids[0], hist["reqs"][n])
             counters["post_crash_responses_compared"] = counters.get("post_crash_responses_compared", 0) + 1
             m = missing_equation(got)
